@@ -67,6 +67,14 @@ def enumerate_cases(tier, seed):
   for fam, cfg in _qcfgs(tier):
     for ste in ((True, False) if cfg["cls"] != "quantized_linear" else (True,)):
       cases.append(dict(sub="a", fam=fam, q=cfg, ste=ste))
+  # data-dependent scales ('auto' / 'auto_po2') with integer bits: the unquantized end of the interpolation is the input
+  # itself (an INDEPENDENT reference: the call normalises by 2^integer internally and must undo it on every path)
+  for cls in ("quantized_bits", "quantized_linear"):
+    for alpha in ("auto", "auto_po2"):
+      for bits in (3, 4, 8):
+        for integer in (0, 1, 2):
+          for ste in ((True, False) if cls == "quantized_bits" else (True,)):
+            cases.append(dict(sub="a2", cls=cls, alpha=alpha, bits=bits, integer=integer, ste=ste, _seed=seed))
   reps = [("fixed", dict(cls="quantized_bits", bits=4, integer=1, keep_negative=True, symmetric=0, alpha=None)),
           ("fixed", dict(cls="quantized_linear", bits=4, integer=1, keep_negative=True, symmetric=1, alpha=None)),
           ("fixed", dict(cls="quantized_relu", bits=4, integer=1, slope=0.0)),
@@ -194,6 +202,72 @@ def run_a(case, tf):
           "state": "a" + repr(sorted(cfg.items())) + str(ste), "digest": common.digest(*[outs[k] for k in sorted(outs)]),
           "violations": viol, "traces": len(outs),
           "sample": {"sub": "a", "cfg": cfg, "use_ste": ste, "alphabet_size": int(x.size)}}
+
+
+def run_a2(case, tf):
+  from qkeras import quantizers as Q  # pylint: disable=import-outside-toplevel
+  viol = []
+
+  def bad(clause, what, **d):
+    if len(viol) < 6 and not any(v["key"].endswith(clause + ":" + case["alpha"]) for v in viol):
+      viol.append({"key": "a:%s:%s:%s" % (case["cls"], clause, case["alpha"]), "what": "%s(%d,%d,alpha=%r) %s: %s" % (
+          case["cls"], case["bits"], case["integer"], case["alpha"], clause, what), "detail": dict(case=case, **d)})
+
+  def make(f=None):
+    kw = dict(bits=case["bits"], integer=case["integer"], alpha=case["alpha"])
+    if f is not None:
+      kw["qnoise_factor"] = f
+    if case["cls"] == "quantized_bits":
+      kw["use_ste"] = case["ste"]
+      kw["symmetric"] = 1
+    return getattr(Q, case["cls"])(**kw)
+  evals = 0
+  moved = False
+  digests = []
+  for pattern in ("grid7", "ramp", "signs"):
+    x = (common.tensor((4, 3), pattern, case["_seed"]) * np.float32(2.0 ** case["integer"])).astype(np.float32)
+    x = np.where(np.abs(x) < 1e-30, np.float32(0), x)
+    xt = tf.constant(x)
+    outs = {}
+    for f in FACTORS:
+      for route in ROUTES:
+        if route == "ctor":
+          q = make(f)
+        else:
+          q = make()
+          if route == "update_after_call":
+            q(xt)
+          elif route == "variables_then_update":
+            q.build(var_name="v", use_variables=True)
+          q.update_qnoise_factor(f)
+        outs[(f, route)] = np.asarray(q(xt), dtype=np.float32)
+    y0, y1 = outs[(0.0, "ctor")], outs[(1.0, "ctor")]
+    digests.append(common.digest(*[outs[k] for k in sorted(outs)]))
+    evals += x.size
+    if not np.array_equal(y0, x):
+      i = int(np.flatnonzero((y0 != x).reshape(-1))[0])
+      bad("f=0", "x=%r: output %r at qnoise_factor 0 is not the input" % (float(x.reshape(-1)[i]), float(y0.reshape(-1)[i])))
+    for f in FACTORS:
+      base = outs[(f, "ctor")]
+      for route in ROUTES[1:]:
+        evals += x.size
+        if not np.array_equal(outs[(f, route)], base):
+          i = int(np.flatnonzero((outs[(f, route)] != base).reshape(-1))[0])
+          bad("route:" + route, "f=%r x=%r: %r via %s but %r via constructor" % (
+              f, float(x.reshape(-1)[i]), float(outs[(f, route)].reshape(-1)[i]), route, float(base.reshape(-1)[i])))
+      want = x.astype(np.float64) + f * (y1.astype(np.float64) - x.astype(np.float64))
+      tol = 2 * common.f32_ulp(np.maximum(np.abs(y1), np.abs(x)).astype(np.float64) + 1e-30)
+      d = np.abs(base.astype(np.float64) - want)
+      evals += x.size
+      if (d > tol).any():
+        i = int(np.flatnonzero((d > tol).reshape(-1))[0])
+        bad("interpolation", "f=%r x=%r: %r != x + f(q-x) = %r (q=%r)" % (
+            f, float(x.reshape(-1)[i]), float(base.reshape(-1)[i]), float(want.reshape(-1)[i]), float(y1.reshape(-1)[i])))
+      if 0 < f < 1 and np.any((base != x) & (base != y1)):
+        moved = True
+  return {"evals": evals, "transitions": 3 * len(FACTORS) * len(ROUTES), "nontrivial": int(moved),
+          "state": "a2" + repr(sorted((k, repr(v)) for k, v in case.items())), "digest": common.digest(*digests),
+          "violations": viol, "traces": 3 * len(FACTORS) * len(ROUTES), "sample": {"sub": "a2", "case": case}}
 
 
 def run_b(case, tf):
@@ -397,6 +471,8 @@ def run_case(case):
   common.reset_keras()
   if case["sub"] == "a":
     return run_a(case, tf)
+  if case["sub"] == "a2":
+    return run_a2(case, tf)
   if case["sub"] == "b":
     return run_b(case, tf)
   return run_c(case, tf)
